@@ -117,12 +117,13 @@ func init() {
 		Pkg: "verif/harness/c15",
 		Runs: []RunDef{
 			{Fn: "H_array", Tier: "quick", Reach: []string{"end"}},
+			{Fn: "H_array_text", Fuel: 30_000_000, Tier: "quick", Reach: []string{"end"}},
 			c15s(0, 0, "quick"), c15s(0, 1, "quick"), c15s(1, 0, "quick"), c15s(1, 1, "quick"), c15s(2, 0, "quick"), c15s(2, 1, "quick"), c15s(2, 2, "quick"),
 			c15s(3, 1, "thorough"), c15s(3, 2, "thorough"), c15s(4, 1, "thorough"), c15s(4, 2, "thorough"),
 		},
-		Rule:        rule + "; 31 array method cases (every arity incl. omitted optionals and 1-2 variadic items) on receivers of length 0..3 with symbolic 64-bit elements and FULL-RANGE symbolic index/count arguments (negative, zero, = length, beyond, MinInt/MaxInt inside one query), result and receiver-after-call compared with Go reference functions of the documented Node.js semantics; 11 string method cases on printable-ASCII symbolic strings",
+		Rule:        rule + "; 37 array method cases (every arity incl. omitted optionals and 1-2 variadic items; callbacks with a local variable; reduce with and without an initial value) on receivers of length 0..3 with symbolic 64-bit elements and FULL-RANGE symbolic index/count arguments (negative, zero, = length, beyond, MinInt/MaxInt inside one query), result and receiver-after-call compared with Go reference functions of the documented Node.js semantics; 11 string method cases on printable-ASCII symbolic strings; H_array_text: join() / join(sep) / sort() on receivers drawn from the pool {10, 9, 1, -1, -2, 2} (string comparison order) and flat() / flat(2) / flat(0) on doubly nested lists",
 		Assumptions: []string{"indexOf/includes compare elements through their string form: concrete element pool {0,1,-1,7} there", "strings: printable ASCII only; substring asserted on 0 <= a <= b <= len (outside: completes without a crash)", "callbacks are function(...) use (...) closures over ordinary assigned script variables"},
-		Outside:     []string{"receivers longer than 3 (strings 4)", "sort(), join(), flat(depth) on nested lists, forEach", "multi-byte strings and the unit of length", "callbacks using the array argument"},
+		Outside:     []string{"receivers longer than 3 (strings 4)", "sort()/join() on elements outside the concrete pool, forEach", "multi-byte strings and the unit of length", "callbacks using the array argument"},
 	})
 
 	reg(Check{
